@@ -43,6 +43,10 @@ def replay(run: Run) -> Tuple[Optional[List[str]], Optional[str]]:
     return run.compare(got), None
 
 
+def r_none():
+    return None
+
+
 def has_nan(run: Run) -> bool:
     r = run.result
     if r is None:
@@ -93,14 +97,34 @@ def mon_c02(run: Run, p: Problem) -> List[Dict[str, Any]]:
     return bad
 
 
+# id(checkpoint object) -> was it produced by a run with a gradient scaler (finding K1 applies then)
+CK_SCALED: Dict[int, bool] = {}
+
+
 def mon_c03(run: Run, p: Problem, kw) -> List[Dict[str, Any]]:
     if run.result is None or kw.get("update_fun_def") is not None:
         return []
     s = scale_of(run)
     ck = kw.get("checkpoint")
+    bad0: List[Dict[str, Any]] = []
+    # the TRUE objective (the harness's own closure, no scaling) along start / checkpoint point,
+    # callback iterates, result: non-increasing whenever the factor is positive — multiplication by
+    # s > 0 is monotone in floating point, so fl(s a) < fl(s b) implies a < b
+    if s > 0 and np.isfinite(s) and run.result is not r_none():
+        pts = [np.asarray(ck.x, dtype=float) if ck is not None else np.clip(np.asarray(kw["x0"], dtype=float), p.lb, p.ub)]
+        pts += [np.asarray(e["state"].x, dtype=float) for e in run.rec.cb] + [np.asarray(run.result.x, dtype=float)]
+        tv = [float(np.real(p.fun(q.copy()))) for q in pts]
+        if not any(np.isnan(tv)):
+            for i, (a, b) in enumerate(zip(tv, tv[1:])):
+                if b > a:
+                    k1 = ck is not None and kw.get("gradient_scaler") is not None and CK_SCALED.get(id(ck), False)
+                    bad0.append({"what": "true objective increased between accepted iterates" + (" (after restart)" if ck is not None else ""),
+                                 "key": "restart+scaler" if k1 else "",
+                                 "detail": {"from": a, "to": b, "step": i, "scale": s, "message": run.result.message}})
+                    break
     if ck is not None:
-        seq = [float(ck.fun)]
-    else:
+        return bad0
+    if True:
         first = [k for kd, k in run.rec.calls if kd == "F"]
         if not first:
             return []
@@ -111,8 +135,8 @@ def mon_c03(run: Run, p: Problem, kw) -> List[Dict[str, Any]]:
     seq += [float(e["state"].fun) for e in run.rec.cb]
     seq.append(float(run.result.fun))
     if any(np.isnan(seq)):
-        return []
-    bad = []
+        return bad0
+    bad = bad0
     for a, b in zip(seq, seq[1:]):
         if b > a:
             bad.append({"what": "objective increased between accepted iterates", "key": "",
@@ -285,7 +309,8 @@ def mon_c18(run: Run, p: Problem, kw) -> List[Dict[str, Any]]:
 def basic_tags(run: Run, desc, p: Problem) -> List[str]:
     t = [f"family={p.desc.get('family')}", f"box={p.desc.get('box')}", f"n<={4 * ((p.n + 3) // 4)}"]
     f = desc["features"]
-    t += [f"jac={f['jac']}", f"cb={f['callback']}", f"ftarget={f['ftarget']}", f"scaler={f['scaler']}", f"update={f['update']}"]
+    t += [f"jac={f['jac']}", f"cb={f['callback']}", f"ftarget={f['ftarget']}", f"scaler={f['scaler']}", f"update={f['update']}",
+          f"grad_buffer={f.get('grad_buffer', False)}", f"irrelevant_eps={f.get('irrelevant_eps', False)}"]
     if run.exc is not None:
         t.append("exc=" + type(run.exc).__name__)
     else:
